@@ -110,6 +110,70 @@ def check_rw(item, acc):
             acc.outcomes.add(hash((tuple(map(tuple, edges)), s, T, len(walks))))
     if len(edges) >= 2:
         acc.nontrivial.add(hash(("rw", tuple(map(tuple, edges)))))
+    # second calls on the SAME object after in-place rewiring (call / mutate in place / call again): every (position, replacement)
+    # pair that keeps the hypergraph connected is applied in turn to the object that has already answered every query above, so the
+    # node and hyperedge counts never change - a result memoised on the object or on its counts shows as a stale answer.  One
+    # hyperedge is then added (counts change) and the queries repeated once more.
+    cands = [c for r in range(2, min(n, 4) + 1) for c in itertools.combinations(range(n), r)]
+    cur = list(edges)
+    steps = [(i, c) for i in range(len(edges)) for c in cands] + [(None, c) for c in cands]
+    grown = False
+    for i, c in steps:
+        if c in cur or (i is None and grown):
+            continue
+        nxt = cur + [c] if i is None else cur[:i] + [c] + cur[i + 1:]
+        if len(components(tuple(range(n)), nxt)) != 1:
+            continue
+        try:
+            if i is not None:
+                h.remove_edge(cur[i])
+            else:
+                grown = True
+            h.add_edge(c)
+        except Exception as e:
+            bad("second-call/mutation-exception", "raised %s: %s" % (type(e).__name__, e))
+            return
+        cur = nxt
+        W2 = np.zeros((n, n))
+        for e in cur:
+            for a, b in itertools.permutations(e, 2):
+                W2[a, b] += len(e) - 1
+        K2 = W2 / W2.sum(axis=1, keepdims=True)
+        pi2 = np.array([sum((len(e) - 1) ** 2 for e in cur if a in e) for a in range(n)], dtype=float)
+        pi2 /= pi2.sum()
+        acc.evaluations += 3
+        try:
+            K = np.asarray(RW.transition_matrix(h).todense())
+            pi = np.asarray(RW.RW_stationary_state(h)).reshape(-1)
+            dl = RW.random_walk_density(h, np.eye(n)[0], 2)
+            if np.abs(K - K2).max() > 1e-12:
+                bad("second-call/transition_matrix", "after rewiring %r -> %r in place: K=%r, definition %r" % (list(edges), cur, K.tolist(), K2.tolist()))
+            if pi.shape != (n,) or np.abs(pi - pi2).max() > 1e-9:
+                bad("second-call/stationary_state", "after rewiring %r -> %r in place: pi=%r, definition %r" % (list(edges), cur, pi.tolist(), pi2.tolist()))
+            if len(dl) != 3 or any(np.abs(np.asarray(a).reshape(-1) @ K2 - np.asarray(b).reshape(-1)).max() > 1e-12 for a, b in zip(dl, dl[1:])):
+                bad("second-call/random_walk_density", "after rewiring %r -> %r in place: %r" % (list(edges), cur, [np.asarray(d).tolist() for d in dl]))
+        except Exception as e:
+            bad("second-call/exception", "raised %s: %s" % (type(e).__name__, e))
+            continue
+        adj2 = W2 > 0
+        walks = set()
+
+        def run2(ch):
+            with CH.patched(RW, np=CH.NumpyShim(np, CH.FakeNumpyRandom(ch, np))):
+                return RW.random_walk(h, 0, 1)
+
+        try:
+            for script, res, ch, pruned in acc.explore(run2):
+                acc.evaluations += 1
+                walks.add(tuple(int(x) for x in res))
+        except CH.UnownedRandomness:
+            raise
+        except Exception as e:
+            bad("second-call/random_walk/exception", "raised %s: %s" % (type(e).__name__, e))
+            continue
+        if walks != {(0, j) for j in range(n) if adj2[0, j]}:
+            bad("second-call/random_walk/reachable-set", "after rewiring %r -> %r in place: one-step walks from 0 %r" % (list(edges), cur, sorted(walks)))
+        acc.outcomes.add(hash(("second", tuple(cur), len(walks))))
 
 
 # ---- contagion ------------------------------------------------------------------------------------------
